@@ -228,13 +228,21 @@ def random_nfa(Sigma: Set[Symbol], n: int) -> NFA:
     return NFA(Q, Sigma, delta, q0, F, epsilon)
 
 
+def _copy_transitions(*deltas) -> MutableMapping[Tuple[State, Symbol], Set[State]]:
+    """Returns a new transition relation with copies of the target sets, such that the operands are not modified."""
+    delta = defaultdict(lambda: set([]))
+    for d in deltas:
+        for key, Q1 in d.items():
+            delta[key] = set(Q1)
+    return delta
+
+
 def nfa_repetition(N: NFA, id_generator: IdentifierGenerator = IdentifierGenerator()) -> NFA:
     Sigma = N.Sigma
     q0 = State(id_generator.generate('q'))
     Q = N.Q | {q0}
     F = N.F | {q0}
-    delta = defaultdict(lambda: set([]))
-    delta.update(N.delta)
+    delta = _copy_transitions(N.delta)
     for q in F:
         delta[q, N.epsilon] |= {N.q0}
     delta[q0, N.epsilon] = {N.q0}
@@ -247,9 +255,7 @@ def nfa_union(N1: NFA, N2: NFA, id_generator: IdentifierGenerator = IdentifierGe
     q0 = State(id_generator.generate('q'))
     Q = N1.Q | N2.Q | {q0}
     F = N1.F | N2.F
-    delta = defaultdict(lambda: set([]))
-    delta.update(N1.delta)
-    delta.update(N2.delta)
+    delta = _copy_transitions(N1.delta, N2.delta)
     delta[q0, N1.epsilon] = {N1.q0, N2.q0}
     return NFA(Q, Sigma, delta, q0, F, N1.epsilon)
 
@@ -260,9 +266,7 @@ def nfa_concatenation(N1: NFA, N2: NFA) -> NFA:
     q0 = N1.q0
     Q = N1.Q | N2.Q | {q0}
     F = N2.F
-    delta = defaultdict(lambda: set([]))
-    delta.update(N1.delta)
-    delta.update(N2.delta)
+    delta = _copy_transitions(N1.delta, N2.delta)
     for q in N1.F:
         delta[q, N1.epsilon] |= {N2.q0}
     return NFA(Q, Sigma, delta, q0, F, N1.epsilon)
